@@ -17,6 +17,9 @@ type ConcCase struct {
 	WO      bool  `json:"wo"`
 	Lens    []int `json:"lens"` // sectors, cycled
 	Reopen  bool  `json:"reopen"`
+	// Readers: goroutines that read the revision count all the while (what every GET of
+	// the replica's REST resource and every action answer does)
+	Readers int `json:"readers,omitempty"`
 }
 
 func runConcCase(cc ConcCase) (*Fail, error) {
@@ -34,6 +37,31 @@ func runConcCase(cc ConcCase) (*Fail, error) {
 	per := int64(cc.Blocks*8) / int64(cc.Writers)
 	var wg sync.WaitGroup
 	errs := make([]error, cc.Writers)
+	stop := make(chan struct{})
+	var rwg sync.WaitGroup
+	var wentBack string
+	var wbMu sync.Mutex
+	for r := 0; r < cc.Readers; r++ {
+		rwg.Add(1)
+		go func() {
+			defer rwg.Done()
+			last := int64(-1)
+			for {
+				select {
+				case <-stop:
+					return
+				default:
+				}
+				c := e.S.Replica().GetRevisionCounter()
+				if c < last {
+					wbMu.Lock()
+					wentBack = fmt.Sprintf("a reader saw the revision count go from %d back to %d while writes were running", last, c)
+					wbMu.Unlock()
+				}
+				last = c
+			}
+		}()
+	}
 	for w := 0; w < cc.Writers; w++ {
 		wg.Add(1)
 		go func(w int) {
@@ -57,6 +85,11 @@ func runConcCase(cc ConcCase) (*Fail, error) {
 		}(w)
 	}
 	wg.Wait()
+	close(stop)
+	rwg.Wait()
+	if wentBack != "" {
+		return fail("concurrent|counter-went-back", wentBack, "C10"), nil
+	}
 	for w, err := range errs {
 		if err != nil {
 			return fail("concurrent|write-error", fmt.Sprintf("writer %d: %v", w, err), "C01", "C10"), nil
@@ -95,7 +128,7 @@ func TestC10Concurrent(t *testing.T) {
 			fatalf("HARNESS ERROR: %v", err)
 			return
 		}
-		rec.Case(cc, cc.Writers >= 2, fmt.Sprintf("writers:%d", cc.Writers), map[bool]string{true: "mode:WO", false: "mode:RW"}[cc.WO])
+		rec.Case(cc, cc.Writers >= 2, fmt.Sprintf("writers:%d", cc.Writers), map[bool]string{true: "mode:WO", false: "mode:RW"}[cc.WO], fmt.Sprintf("readers-of-the-count:%d", cc.Readers))
 		if f != nil && f.Has("C10") {
 			if rec.Fail("C10", "C10|"+f.Sig, f.Detail, cc) {
 				return
@@ -115,6 +148,9 @@ func TestC10Concurrent(t *testing.T) {
 		cc := ConcCase{Blocks: rapid.IntRange(8, 32).Draw(rt, "blocks"), Writers: rapid.IntRange(2, 8).Draw(rt, "writers"),
 			Per: rapid.IntRange(1, 40).Draw(rt, "per"), Overlap: rapid.Bool().Draw(rt, "overlap"), WO: rapid.IntRange(0, 3).Draw(rt, "wo") == 0,
 			Lens: rapid.SliceOfN(rapid.IntRange(1, 8), 1, 5).Draw(rt, "lens"), Reopen: rapid.Bool().Draw(rt, "reopen")}
+		if rapid.Bool().Draw(rt, "withreaders") {
+			cc.Readers = rapid.IntRange(1, 4).Draw(rt, "readers")
+		}
 		run(cc, rt.Fatalf)
 	})
 }
